@@ -968,6 +968,24 @@ def nested_tag_cases():
     return out
 
 
+def stability_blocks():
+    """Stability: values in canonical / lower / upper / mixed case, with and without a description.
+    gtkdoc.rst lists the values as Stable, Unstable, Private (capitalised); how another spelling is stored is
+    not fixed by the documentation: the value is compared case-insensitively (exactly for the canonical
+    spelling); 'Internal' is not in the documentation at all (only: block parsed, round trip stable)."""
+    out = []
+    for word in ('Stable', 'Unstable', 'Private', 'Internal'):
+        mixed = word[0].lower() + ''.join(c.upper() if i % 2 == 0 else c for i, c in enumerate(word[1:]))
+        for sp in (word, word.lower(), word.upper(), mixed):
+            for desc in (None, 'maybe one day'):
+                line = ' * Stability: %s%s' % (sp, (': ' + desc) if desc else '')
+                text = '\n'.join(['/**', ' * foo_bar:', ' * @p: a value', ' *', ' * Does things.', ' *', line, ' */'])
+                out.append((text, {'tag_line': 6, 'offending': [6], 'params': ['p'], 'tags': ['stability'],
+                                   'plain': True,
+                                   'stability': None if word == 'Internal' else (word, sp == word, desc)}))
+    return out
+
+
 def odd_tag_blocks():
     """Ordinary blocks whose tag line is spelled unusually: two-word tag names with one blank / two blanks / a
     tab / a no-break space between the words, upper / lower / mixed case, and letters that only match the tag
